@@ -116,6 +116,7 @@ func driveSlice(s *shardSet, rng *rand.Rand, thorough bool) ([]string, map[strin
 			}
 		}
 	}
+	driveBigAppend(s, rng, thorough)
 	return types, nil
 }
 
@@ -192,6 +193,7 @@ func driveAppend(s *shardSet, rng *rand.Rand, thorough bool) ([]string, map[stri
 			}
 		}
 	}
+	driveBigAppend(s, rng, thorough)
 	return types, map[string]int{"appends_that_grew": grew, "appends_in_place": inplace}
 }
 
@@ -240,6 +242,7 @@ func driveAppendSample(s *shardSet, rng *rand.Rand, thorough bool) ([]string, ma
 			}
 		}
 	}
+	driveBigAppend(s, rng, thorough)
 	return types, nil
 }
 
@@ -320,6 +323,7 @@ func driveIO(s *shardSet, rng *rand.Rand, thorough bool) ([]string, map[string]i
 			}
 		}
 	}
+	driveBigIO(s, rng, thorough)
 	return BuiltinTypes, map[string]int{"type_pairs": pairs}
 }
 
@@ -373,6 +377,7 @@ func driveChannel(s *shardSet, rng *rand.Rand, thorough bool) ([]string, map[str
 			}
 		}
 	}
+	driveBigAppend(s, rng, thorough)
 	return types, nil
 }
 
